@@ -84,7 +84,7 @@ REQUIRED_CLASSES = ['ctor:NED', 'ctor:ENU', 'ctor:lat=0', 'ctor:lon=0', 'ctor:pl
                     'op:reset', 'op:read', 'op:epoch-change', 'op:same-query-repeated',
                     'place:north-pole', 'place:south-pole', 'place:equator', 'place:prime-meridian',
                     'place:lon=+180', 'place:lon=-180', 'place:|lat|>55&lon!=0', 'frame:ENU query', 'frame:NED query',
-                    'explore:transition into a known state', 'explore:fixpoint']
+                    'explore:transition into a known state']
 
 # ---- alphabets -------------------------------------------------------------------------------------------------
 CTOR_DATES = [None, 2015.0, 2019.999, 2020.0, 2022.5, 2024.999, 2025.0, 'day:2021-07-01']
@@ -389,7 +389,8 @@ def mc_judge(ctx, hist, o, exc, src_id, dst_id):
 # ---- driver --------------------------------------------------------------------------------------------------------
 def run(ctx):
     inits = initial_events(ctx)
-    summary = explore.explore(ctx, __name__, inits, max_depth=None, max_states=50000, chunk=2, init_chunk=6)
+    summary = explore.explore(ctx, __name__, inits, max_depth=None, max_states=50000,
+                              max_transitions=600000 if ctx.thorough else 60000, chunk=2, init_chunk=6)
     ctx.cls('explore:transition into a known state', summary['transitions_into_known_states'])
     if summary['fixpoint_reached']:
         ctx.cls('explore:fixpoint')
